@@ -55,6 +55,7 @@ type Stmt struct {
 	Then  []Stmt   `json:"then"`
 	Els   []Stmt   `json:"els"`
 	Cases [][]Stmt `json:"cases"`
+	Final bool     `json:"final"` // decl: the local is declared final
 }
 
 type Member struct {
@@ -344,7 +345,11 @@ func (rd *renderer) stmt(s *Stmt, ind int) {
 	switch s.K {
 	case "decl":
 		rd.ref(s.Type)
-		w.s(pad + s.Type + " " + s.Name)
+		if s.Final {
+			w.s(pad + "final " + s.Type + " " + s.Name)
+		} else {
+			w.s(pad + s.Type + " " + s.Name)
+		}
 		if s.E != nil {
 			w.s(" = ")
 			rd.expr(s.E)
